@@ -9,15 +9,19 @@
    setstate copy that pair.  The wrapper adds the current and the original
    seed.  A store holds several streams.
 
-   next_int is given three times:
+   next_int is given several times:
      next_int_exact  lo + floor((hi-lo+1) * k / 2^53) in exact arithmetic
                      (the documented formula),
-     next_int_b64    what the code computes: int -> binary64 conversion and the
-                     binary64 product, both round-to-nearest-even, written in Z
-                     arithmetic so that it can be reasoned about,
-     next_int_pf     the same with Coq's primitive floats (executed only; used
-                     by the correspondence to validate next_int_b64 against
-                     hardware binary64 on every case).
+     next_int_b64    what the PINNED code computes: int -> binary64 conversion
+                     and the binary64 product, both round-to-nearest-even, written
+                     in Z arithmetic so that it can be reasoned about
+                     (OverflowError when the width is beyond the float range),
+     next_int_fixed  the REPAIRED code (proposed_fixes/C12-next-int-wide-range):
+                     the binary64 product for widths below 2^53 (unchanged
+                     sequences), exact integer arithmetic from 2^53 on,
+     next_int_pf     the binary64 product with Coq's primitive floats (executed
+                     only; used by the correspondence to validate next_int_b64
+                     against hardware binary64 on every case).
 
    Executable definitions only. *)
 From Coq Require Import ZArith List Bool PrimFloat Uint63 FloatOps SpecFloat.
@@ -133,6 +137,13 @@ Definition next_int_checked (lo hi k : Z) : out :=
   let a := next_int_b64 lo hi k in
   if out_eqb a (next_int_pf lo hi k) then a else ORaise EModelSplit.
 
+(* the repaired next_int: widths from 2^53 on in integer arithmetic *)
+Definition next_int_fixed (lo hi k : Z) : out :=
+  if hi - lo + 1 <? two53 then next_int_b64 lo hi k else OInt (next_int_exact lo hi k).
+
+Definition next_int_fixed_checked (lo hi k : Z) : out :=
+  if hi - lo + 1 <? two53 then next_int_checked lo hi k else OInt (next_int_exact lo hi k).
+
 (* ---------- the wrapper ---------- *)
 Section Wrapper.
   Variable raw : Z -> nat -> Z.
@@ -227,17 +238,21 @@ Fixpoint outs_eqb (a b : list out) : bool :=
   | _, _ => false
   end.
 
-(* a case: index of the generator table, the seeds the streams are created
-   with, the interleaved operations, what the implementation returned *)
-Definition case := (nat * list Z * list (nat * sop) * list out)%type.
+(* a case: the generator table, the seeds the streams are created with, the
+   interleaved operations, what the implementation returned *)
+Definition case := (list (Z * list Z) * list Z * list (nat * sop) * list out)%type.
 
-Definition model_outs (nint : Z -> Z -> Z -> out) (tbls : list (list (Z * list Z))) (c : case)
-  : list out :=
-  let '(t, seeds, ops, _) := c in
-  snd (srun (raw_of (nth t tbls [])) nint (map fresh seeds) ops).
+Definition model_outs (nint : Z -> Z -> Z -> out) (c : case) : list out :=
+  let '(tbl, seeds, ops, _) := c in
+  snd (srun (raw_of tbl) nint (map fresh seeds) ops).
 
-Definition case_ok (tbls : list (list (Z * list Z))) (c : case) : bool :=
-  let '(_, _, _, outs) := c in outs_eqb (model_outs next_int_checked tbls c) outs.
+(* the repaired tree *)
+Definition case_ok (c : case) : bool :=
+  let '(_, _, _, outs) := c in outs_eqb (model_outs next_int_fixed_checked c) outs.
+
+(* the pinned tree (float product for every width) *)
+Definition case_ok_pinned (c : case) : bool :=
+  let '(_, _, _, outs) := c in outs_eqb (model_outs next_int_checked c) outs.
 
 (* every integer draw of the model lies in the requested non-empty range *)
 Fixpoint ints_in_range (ops : list (nat * sop)) (outs : list out) : bool :=
@@ -247,9 +262,6 @@ Fixpoint ints_in_range (ops : list (nat * sop)) (outs : list out) : bool :=
   | _ :: r, _ :: os => ints_in_range r os
   | _, _ => true
   end.
-
-Definition case_in_range (tbls : list (list (Z * list Z))) (c : case) : bool :=
-  let '(_, _, ops, _) := c in ints_in_range ops (model_outs next_int_b64 tbls c).
 
 Fixpoint mismatches_from (i : nat) (check : case -> bool) (cases : list case) : list nat :=
   match cases with
